@@ -17,7 +17,11 @@ Only property theorems live here.  The executable model is `PgFdr/Model/C10.lean
 (`ingestFiles = ingestPairs ∘ pairUp`, run by the driver op `ingest`), helper lemmas are in
 `PgFdr/Proofs/C10.lean`; the model is tied to `parsers.evidence.parse_evidence_files` by the
 correspondence of `harness/props/C10.py`.  All theorems hold for every pair of numeric transforms
-`T` (the driver runs `exactT`), every format and every pairing of digest maps with files.
+`T` (the driver runs `exactT`), every format, razor and non-razor methods alike (`Mode.razor`: the
+MaxQuant parser of a razor method reads `Leading razor protein`, `razor_reads_razor_column`) and every
+pairing of digest maps with files.  The driver runs `ingestFilesChecked`, which answers
+`badScoreCell` exactly where the parser raises on a PEP cell (`bad_score_cell_rejected`,
+`file_raises_iff`) and is `ingestPairs` otherwise — the function every other theorem is about.
 -/
 namespace PgFdr.C10
 
@@ -28,7 +32,8 @@ theorem ingestFiles_eq (T : Transforms) (mode : Mode) (maps : List DMap) (files 
 /-- "… that PSM's proteins - taken from the in-silico digest when the method remaps and from the
     file otherwise. A protein list containing a target loses its decoy entries and peptides unknown
     to the digest are skipped": the PSM stream consists exactly of the rows whose source list (digest
-    proteins of the stripped peptide when remapping, proteins of the file otherwise) is known and
+    proteins of the stripped peptide when remapping, proteins of the file — `rowProteinsOf`: for the
+    MaxQuant input of a razor method the cell `Leading razor protein` — otherwise) is known and
     keeps at least one protein after the decoy purge; each such row yields its format's peptide
     spelling, its transformed score and the purged source list. -/
 theorem psm_of_row (T : Transforms) (mode : Mode) (pairs : List (DMap × List RawRow)) (x : Psm) :
@@ -38,12 +43,12 @@ theorem psm_of_row (T : Transforms) (mode : Mode) (pairs : List (DMap × List Ra
           digestLookup p.1 (removeMods (rowPeptide mode.format (flankOf mode.format p.2) r)) ≠ []) ∧
         removeDecoyProteinsFromTargetPeptides
           (sourceProteins mode.remap p.1 (rowPeptide mode.format (flankOf mode.format p.2) r)
-            (rowProteins mode.format r)) ≠ [] ∧
+            (rowProteinsOf mode r)) ≠ [] ∧
         x = { modPep := rowPeptide mode.format (flankOf mode.format p.2) r,
               score := rowScore T mode.format r,
               prots := removeDecoyProteinsFromTargetPeptides
                 (sourceProteins mode.remap p.1 (rowPeptide mode.format (flankOf mode.format p.2) r)
-                  (rowProteins mode.format r)) } := by
+                  (rowProteinsOf mode r)) } := by
   constructor
   · intro h
     obtain ⟨p, hp, r, hr, hx⟩ := mem_allPsms h
@@ -62,14 +67,14 @@ theorem psm_of_row (T : Transforms) (mode : Mode) (pairs : List (DMap × List Ra
     unfold rowPsm mapProteins
     have hc : ¬ (mode.remap = true ∧
         (sourceProteins mode.remap p.1 (rowPeptide mode.format (flankOf mode.format p.2) r)
-          (rowProteins mode.format r)).isEmpty = true) := by
+          (rowProteinsOf mode r)).isEmpty = true) := by
       rintro ⟨hm, he⟩
       apply hk hm
       simpa [sourceProteins, hm, List.isEmpty_iff] using he
     rw [if_neg hc]
     have he : ¬ (removeDecoyProteinsFromTargetPeptides
         (sourceProteins mode.remap p.1 (rowPeptide mode.format (flankOf mode.format p.2) r)
-          (rowProteins mode.format r))).isEmpty = true := by
+          (rowProteinsOf mode r))).isEmpty = true := by
       simpa [List.isEmpty_iff] using hne
     simp only [he]
     rfl
@@ -116,9 +121,128 @@ theorem result_order (T : Transforms) (mode : Mode) (pairs : List (DMap × List 
       dedupFirst (((allPsms T mode pairs).filter (fun x => x.score.isSome)).map Psm.key) :=
   keys_parse _
 
-/-- "rows without a PEP ignored": dropping them from the stream changes nothing -/
-theorem rows_without_pep_ignored (xs : List Psm) :
-    parse (xs.filter (fun x => x.score.isSome)) = parse xs := foldl_ingest_filter xs []
+/-- "rows without a PEP ignored": (1) PSMs without a usable PEP can be dropped from the stream without
+    changing anything; (2) a row has no usable PEP iff its cell is NaN (the literal `nan`; MaxQuant's and
+    pandas' reading of the empty cell) or — for the formats that do not raise on it, see
+    `bad_score_cell_rejected` — a PEP of +inf; (3) the empty cell of a MaxQuant or DIA-NN file is such a row
+    and is never an error.  (For Percolator, FragPipe and Sage an empty cell is NOT ignored: the parser
+    raises, `file_raises_iff`.) -/
+theorem rows_without_pep_ignored (T : Transforms) (xs : List Psm) :
+    parse (xs.filter (fun x => x.score.isSome)) = parse xs ∧
+    (∀ fmt r, rowScore T fmt r = none ↔ ∀ x, transform T fmt (cellVal r) ≠ .fin x) ∧
+    (∀ fmt r, r.cell = .value → r.score = none → rowScore T fmt r = none ∧ floatRaises fmt r.cell = false) ∧
+    (∀ fmt r, fmt = .maxquant ∨ fmt = .diann → r.cell = .empty →
+      rowScore T fmt r = none ∧ floatRaises fmt r.cell = false) := by
+  refine ⟨foldl_ingest_filter xs [], ?_, ?_, ?_⟩
+  · intro fmt r
+    unfold rowScore
+    cases transform T fmt (cellVal r) <;> simp [Val.pep]
+  · intro fmt r hc hs
+    refine ⟨?_, by simp [floatRaises, hc]⟩
+    cases fmt <;> simp [rowScore, cellVal, hc, hs, transform, Val.pep]
+  · intro fmt r hf hc
+    rcases hf with rfl | rfl <;> simp [rowScore, cellVal, hc, transform, Val.pep, floatRaises]
+
+/-- the value of every PEP cell: a finite literal goes through the format's transform; `inf` is a PEP of +inf
+    — never stored, `np.inf >= d.get(p, [np.inf])[0]` — except under FragPipe's `1 - p`; `-inf` is +inf for
+    FragPipe and `10 ** -inf = 0` for Sage -/
+theorem score_of_cell (T : Transforms) (r : RawRow) :
+    (∀ x, r.cell = .value → r.score = some x →
+      rowScore T .fragpipe r = some (T.fragpipe x) ∧ rowScore T .sage r = some (T.sage x) ∧
+      ∀ fmt, fmt ≠ .fragpipe → fmt ≠ .sage → rowScore T fmt r = some x) ∧
+    (r.cell = .posInf → ∀ fmt, rowScore T fmt r = none) ∧
+    (r.cell = .negInf → rowScore T .fragpipe r = none ∧ rowScore T .sage r = some 0) := by
+  refine ⟨?_, ?_, ?_⟩
+  · intro x hc hs
+    refine ⟨by simp [rowScore, cellVal, hc, hs, transform, Val.pep],
+      by simp [rowScore, cellVal, hc, hs, transform, Val.pep], ?_⟩
+    intro fmt h1 h2
+    cases fmt <;> simp_all [rowScore, cellVal, transform, Val.pep]
+  · intro hc fmt
+    cases fmt <;> simp [rowScore, cellVal, hc, transform, Val.pep]
+  · intro hc
+    constructor <;> simp [rowScore, cellVal, hc, transform, Val.pep]
+
+/-- A PEP cell the parser cannot convert is an error, not an ignored row: the checked ingestion (what the
+    driver runs) answers `badScoreCell` iff reading one of the paired files raises, and whenever it succeeds
+    its result is `ingestPairs` (the subject of all other theorems) and no file raises.  What "raises" means
+    per format is `file_raises_iff`. -/
+theorem bad_score_cell_rejected (T : Transforms) (mode : Mode) (pairs : List (DMap × List RawRow)) :
+    (ingestChecked T mode pairs = .error .badScoreCell ↔ ∃ p ∈ pairs, fileRaises T mode p.1 p.2 = true) ∧
+    (∀ pil, ingestChecked T mode pairs = .ok pil →
+      pil = ingestPairs T mode pairs ∧ ∀ p ∈ pairs, fileRaises T mode p.1 p.2 = false) := by
+  unfold ingestChecked
+  by_cases h1 : pairs.any (fun p => fileRaises T mode p.1 p.2) = true
+  · rw [if_pos h1]
+    refine ⟨⟨fun _ => by simpa using h1, fun _ => rfl⟩, fun pil h => by cases h⟩
+  · rw [if_neg h1]
+    have h1' : ∀ p ∈ pairs, fileRaises T mode p.1 p.2 = false := by
+      intro p hp
+      cases hf : fileRaises T mode p.1 p.2 with
+      | false => rfl
+      | true => exact absurd (List.any_eq_true.mpr ⟨p, hp, hf⟩) h1
+    constructor
+    · constructor
+      · intro h; split at h <;> cases h
+      · rintro ⟨p, hp, hf⟩; rw [h1' p hp] at hf; cases hf
+    · intro pil h
+      split at h
+      · cases h
+      · cases h; exact ⟨rfl, h1'⟩
+
+/-- where the parsers raise on a PEP cell.  Percolator, FragPipe, Sage: `float(row[score_col])` is evaluated for
+    EVERY row before the mapper is asked, so an empty cell or any text that is no float literal raises.
+    MaxQuant: `float(x) if len(x) > 0 else float("nan")` after `if not proteins: continue` — only text that is
+    no float literal, and only in a row that yields a PSM; never the empty cell.  DIA-NN (pandas): a text cell
+    turns the column into text, `np.isnan` then raises on the first yielded PSM whose cell is not missing. -/
+theorem file_raises_iff (T : Transforms) (mode : Mode) (m : DMap) (rows : List RawRow) :
+    fileRaises T mode m rows = true ↔
+      match mode.format with
+      | .maxquant => ∃ r ∈ rows, r.cell = .junk ∧ (rowPsm T mode m false r).isSome = true
+      | .diann => (∃ r ∈ rows, r.cell = .junk) ∧
+          ∃ r ∈ rows, (rowPsm T mode m false r).isSome = true ∧ isMissing r = false
+      | _ => ∃ r ∈ rows, r.cell = .empty ∨ r.cell = .junk := by
+  have hfr : ∀ (f : Format) (c : Cell), f ≠ .maxquant → f ≠ .diann →
+      (floatRaises f c = true ↔ c = .empty ∨ c = .junk) := by
+    intro f c h1 h2
+    cases c <;> cases f <;> simp_all [floatRaises]
+  have hmq : ∀ c : Cell, floatRaises .maxquant c = true ↔ c = .junk := by
+    intro c; cases c <;> simp [floatRaises]
+  unfold fileRaises
+  cases hf : mode.format <;>
+    simp only [List.any_eq_true, rowRaises, hf, Bool.and_eq_true, decide_eq_true_eq, flankOf,
+      Bool.not_eq_true', hmq, ne_eq, reduceCtorEq, not_false_eq_true, hfr]
+
+/-- razor methods (`sharedPeptides = "razor"`): during ingestion they differ from the non-razor methods in one
+    place — the MaxQuant parser takes the protein cell from the column `Leading razor protein` (`prot[1]`)
+    instead of `Leading proteins`; for every other format the flag changes nothing, neither the result nor
+    the refusals.  (The razor assignment itself happens after ingestion, property C05.) -/
+theorem razor_reads_razor_column (T : Transforms) (mode : Mode) :
+    (∀ r, mode.format = .maxquant → mode.razor = true →
+      rowProteinsOf mode r = splitOn ";" (r.prot.getD 1 "")) ∧
+    (∀ r, mode.razor = false → rowProteinsOf mode r = rowProteins mode.format r) ∧
+    (mode.format ≠ .maxquant → ∀ b pairs,
+      ingestChecked T { mode with razor := b } pairs = ingestChecked T mode pairs) := by
+  refine ⟨?_, ?_, ?_⟩
+  · intro r hf hr; simp [rowProteinsOf, hf, hr]
+  · intro r hr; simp [rowProteinsOf, hr]
+  · intro hf b pairs
+    obtain ⟨fmt, remap, razor⟩ := mode
+    replace hf : fmt ≠ .maxquant := hf
+    have hrow : ∀ m flank r, rowPsm T ⟨fmt, remap, b⟩ m flank r = rowPsm T ⟨fmt, remap, razor⟩ m flank r := by
+      intro m flank r
+      simp [rowPsm, rowProteinsOf, hf]
+    have hfile : ∀ m rows, filePsms T ⟨fmt, remap, b⟩ m rows = filePsms T ⟨fmt, remap, razor⟩ m rows := by
+      intro m rows
+      simp only [filePsms, hrow]
+    have hraise : ∀ m flank, rowRaises T ⟨fmt, remap, b⟩ m flank = rowRaises T ⟨fmt, remap, razor⟩ m flank := by
+      intro m flank; funext r; simp only [rowRaises, hrow]
+    have hneg : ∀ m flank, rowNegInf T ⟨fmt, remap, b⟩ m flank = rowNegInf T ⟨fmt, remap, razor⟩ m flank := by
+      intro m flank; funext r; simp only [rowNegInf, hrow]
+    have hfr : ∀ m rows, fileRaises T ⟨fmt, remap, b⟩ m rows = fileRaises T ⟨fmt, remap, razor⟩ m rows := by
+      intro m rows
+      cases fmt <;> simp only [fileRaises, hrow, hraise]
+    simp only [ingestChecked, ingestPairs, allPsms, hfile, hneg, hfr]
 
 /-- order independence on the PSM stream: any permutation of the PSMs gives the same score for
     every peptide -/
@@ -197,7 +321,7 @@ theorem target_list_loses_decoys (T : Transforms) (mode : Mode) (pairs : List (D
       e.proteins ≠ [] ∧
       (∃ p ∈ pairs, ∃ r ∈ p.2, ∃ src,
         src = sourceProteins mode.remap p.1 (rowPeptide mode.format (flankOf mode.format p.2) r)
-                (rowProteins mode.format r) ∧
+                (rowProteinsOf mode r) ∧
         e.proteins = if isDecoy src then src else src.filter (fun x => !isDecoyId x)) ∧
       (isDecoy e.proteins = true ∨ ∀ x ∈ e.proteins, isDecoyId x = false) := by
   intro e he
@@ -364,17 +488,24 @@ theorem diann_decoy_rows_prefixed (r : RawRow) (h : r.decoy = true) :
     exact List.isPrefixOf_iff_prefix.mpr (List.prefix_append _ _)
   simp [isDecoyId, this]
 
-/-- every shipped method selects a mode the model implements; the non-razor ones realise exactly
-    these input-type / remap combinations (re-checked against `methods/*.toml` on every build) -/
+/-- every shipped method — all 27 TOMLs, razor and non-razor — selects a mode the model implements: each has a
+    `scoreType`, the description `scoreType [+ " razor"]` (`methods.parse_method_toml`) yields exactly these ten
+    input-type / remap / razor combinations, three of which belong to the eight razor methods (re-checked
+    against `methods/*.toml` on every build) -/
 theorem shipped_modes :
     (∀ m ∈ PgFdr.Generated.methods, m.scoreType ≠ none) ∧
-    ((PgFdr.Generated.methods.filter (fun m => m.sharedPeptides != some "razor")).map
-        (fun m => modeOfScoreType (m.scoreType.getD "") false)).eraseDups =
+    (PgFdr.Generated.methods.map (fun m => modeOfScoreType (descriptionOf m) false)).eraseDups =
       [ { format := .percNative, remap := true }, { format := .percNative, remap := false },
         { format := .diann, remap := false }, { format := .maxquant, remap := true },
-        { format := .fragpipe, remap := false }, { format := .maxquant, remap := false },
-        { format := .sage, remap := false } ] := by
-  constructor <;> decide
+        { format := .fragpipe, remap := false }, { format := .maxquant, remap := true, razor := true },
+        { format := .percNative, remap := false, razor := true }, { format := .maxquant, remap := false },
+        { format := .percNative, remap := true, razor := true }, { format := .sage, remap := false } ] ∧
+    (PgFdr.Generated.methods.filter (fun m => m.sharedPeptides == some "razor")).length = 8 ∧
+    ((PgFdr.Generated.methods.filter (fun m => m.sharedPeptides == some "razor")).map
+        (fun m => modeOfScoreType (descriptionOf m) false)).eraseDups =
+      [ { format := .maxquant, remap := true, razor := true }, { format := .percNative, remap := false, razor := true },
+        { format := .percNative, remap := true, razor := true } ] := by
+  refine ⟨?_, ?_, ?_, ?_⟩ <;> decide
 
 /-! ## Non-vacuity: concrete inputs meeting the hypotheses -/
 
